@@ -1049,6 +1049,40 @@ impl<'r> Gen<'r> {
         let d = depth.saturating_sub(1);
         let mutation = self.cfg.profile == Profile::MutationHeavy;
         //  0 let, 1 let mut, 2 assign, 3 if-stmt, 4 match-stmt, 5 for, 6 expr-stmt, 7 let-destructure, 8 copy-then-mutate
+        // rarely: an assignment through two accessors into an array of length zero (guarded by a
+        // condition; it fails with OutOfBounds when executed, the compiler must cope with the empty
+        // element it reads on the way)
+        if self.in_head == 0 && self.rng.chance(1, 70) {
+            self.note("assignment-into-empty-array");
+            self.in_head += 1;
+            let c = self.gen_expr(&Ty::Bool, 1);
+            self.in_head -= 1;
+            let p1 = self.gen_prim_ty();
+            let p2 = self.gen_prim_ty();
+            let (elem_ty, acc, target_ty) = if self.rng.bool() {
+                (Ty::Tuple(vec![p1.clone(), p2.clone()]), Acc::Tuple(1), p2.clone())
+            } else {
+                (Ty::Array(Box::new(p1.clone()), 2), Acc::Index(lit_int(ints::USIZE, self.rng.below(2) as i128)), p1.clone())
+            };
+            let aty = Ty::Array(Box::new(elem_ty.clone()), 0);
+            // (a name that shadows nothing: index and value below may mention any visible variable)
+            let mut name = self.fresh("m");
+            while self.visible_vars().iter().any(|v| v.name == name) {
+                name = self.fresh("m");
+            }
+            let elem = self.construct(&elem_ty, 0);
+            let init = e(ExprKind::ArrayRepeat(Box::new(elem), 0), aty.clone());
+            let idx = if self.rng.bool() { lit_int(ints::USIZE, self.rng.below(2) as i128) } else { self.gen_index(1, 1) };
+            let value = self.gen_expr(&target_ty, 1);
+            let block = Block {
+                stmts: vec![
+                    Stmt::new(StmtKind::LetMut(name.clone(), aty, init, true)),
+                    Stmt::new(StmtKind::Assign { var: name, accs: vec![Acc::Index(idx), acc], op: None, value, target_ty }),
+                ],
+                tail: None,
+            };
+            return Some(Stmt::new(StmtKind::Expr(e(ExprKind::If(Box::new(c), block, Block::default()), Ty::unit()))));
+        }
         let w: [u32; 9] = if mutation { [3, 5, 8, 4, 2, 3, 1, 2, 4] } else { [6, 4, 4, 3, 2, 2, 1, 2, 1] };
         match self.rng.weighted(&w) {
             0 => {
